@@ -91,7 +91,8 @@ Step ==
                  /\ digests' = Ext(digests, {Line.count}, Line.digest)
                  /\ outcomes' = [outcomes EXCEPT ![n] = @ \cup {<<Line.outcomes[i][1], Line.outcomes[i][2]>> : i \in 1..Len(Line.outcomes)}]
                  /\ healInfo' = IF ~healInfo.on THEN healInfo
-                                ELSE IF Line.commits # <<>> THEN [healInfo EXCEPT !.last[n] = Line.post.view, !.fired[n] = 0]
+                                ELSE IF Line.commits # <<>> THEN [healInfo EXCEPT !.last[n] = IF Line.post.view > healInfo.view THEN Line.post.view ELSE healInfo.view,
+                                                                                    !.fired[n] = 0]      \* (a member that is still catching up to the heal view is measured from the heal view)
                                 ELSE IF Line.kind = "timeout" THEN [healInfo EXCEPT !.fired[n] = @ + 1] ELSE healInfo
                  /\ UNCHANGED cfg
          [] OTHER -> UNCHANGED <<cfg, reg, clog, voted, tsigned, votesFor, tsigners, offered, xlog, digests, outcomes, healInfo>>
